@@ -369,6 +369,18 @@ fn adversarial(thorough: bool) -> Vec<Value> {
             out.push(lib_case(&format!("rule r {{\n  let x = regex_replace(a, \"{}\", \"-\")\n  %x exists\n}}\n", re.replace('\\', "\\\\")), &format!("{{\"a\":\"{}\"}}", sx), "regex"));
         }
     }
+    // --- look-around (which selects the backtracking engine) in front of catastrophic shapes: the engine gives up with
+    //     an error after its step limit, on `==`, `!=`, `in` and inside filters
+    for la in ["(?=a)", "(?!b)", "(?<=a)", "(?<!b)"] {
+        for shape in ["(a+)+$", "(a|aa)+$", "(a*)*c", "(.*)*x"] {
+            let d = format!("{{\"a\":\"{}b\",\"l\":[{{\"n\":\"{}b\"}}]}}", "a".repeat(40), "a".repeat(40));
+            let rules = format!("rule r {{ a == /{la}{shape}/ }}\nrule s {{ a != /{la}{shape}/ }}\nrule t {{ a in [/{la}{shape}/, \"x\"] }}\nrule u {{ a not in [/{la}{shape}/] }}\nrule v {{ l[ n == /{la}{shape}/ ] !empty }}\nrule w {{ some l[*].n == /{la}{shape}/ }}\n", la = la, shape = shape);
+            out.push(lib_case(&rules, &d, "regex"));
+            for one in rules.lines() {
+                out.push(lib_case(&format!("{}\n", one), &d, "regex"));
+            }
+        }
+    }
     // --- parameterised rules called with every arity 0..3 against declarations of arity 1..2, odd arguments
     for decl in ["rule p(x) { %x exists }", "rule p(x, y) { %x == %y }", "rule p(x) { a == %x\n %x !empty }"] {
         for call in ["p()", "p(a)", "p(a, 1)", "p(a, 1, \"s\")", "p(nosuch)", "p(a[ zz exists ])", "p(count(a))", "p(p)", "p(%u)", "q(a)", "not p(a, b, c, d)"] {
